@@ -1749,7 +1749,9 @@ class Interp:
                 if isinstance(a, (list, tuple, dict, set, str, frozenset, bytes)):
                     return len(a)
                 return self.external_call("len", args, kwargs, node)
-            if name in ("list", "tuple", "set", "sorted", "reversed"):
+            if name == "frozenset" and not args and not kwargs:
+                return frozenset()
+            if name in ("list", "tuple", "set", "frozenset", "sorted", "reversed"):
                 a = args[0] if args else []
                 if isinstance(a, _DictView):
                     a = a.materialise()
@@ -1767,6 +1769,8 @@ class Interp:
                         return tuple(items)
                     if name == "set":
                         return set(_hashable(x) for x in items)
+                    if name == "frozenset":
+                        return frozenset(_hashable(x) for x in items)
                     if name == "sorted":
                         key = kwargs.get("key")
                         rev = kwargs.get("reverse", False)
